@@ -197,6 +197,24 @@ func (p *peer) waitFor(cond func() bool) bool {
 	}
 }
 
+// settle waits until no connection the peer has not cut ends inside a frame (bytes a send has handed to the kernel are
+// still on their way while the collector's reader has not been scheduled: on a busy machine that takes longer than any
+// fixed pause), or the bounded-safety limit expires. A frame that really was torn stays torn and is judged afterwards.
+// skip: index of a connection that is allowed to end inside a frame (-1: none).
+func (p *peer) settle(skip int) {
+	p.waitFor(func() bool {
+		for ci, pc := range p.conns {
+			if pc.cut || ci == skip {
+				continue
+			}
+			if _, rest, err := splitFrames(pc.buf); err == nil && len(rest) > 0 {
+				return false
+			}
+		}
+		return true
+	})
+}
+
 func (p *peer) nconns() int {
 	p.mu.Lock()
 	defer p.mu.Unlock()
@@ -715,6 +733,7 @@ func run(c Case) *pbt.Result {
 		return pbt.Fail("at the end: %s", msg)
 	}
 	time.Sleep(30 * time.Millisecond)
+	pr.settle(-1)
 	pr.mu.Lock()
 	seen := map[int]int{}
 	lastPerG := map[int]int64{}
@@ -962,6 +981,7 @@ func runQueue(c QCase) *pbt.Result {
 	} else {
 		time.Sleep(300 * time.Millisecond) // let the drain goroutine run into the fault and re-dial
 	}
+	pr.settle(-1)
 	pr.mu.Lock()
 	defer pr.mu.Unlock()
 	seen := map[int]bool{}
